@@ -11,6 +11,7 @@ import (
 	"sync"
 
 	"github.com/deepteams/webp/internal/dsp"
+	"github.com/deepteams/webp/internal/verifhook"
 )
 
 // minPixelsForParallel is the minimum number of pixels to justify parallel
@@ -171,6 +172,7 @@ func inverseTransform(t *Transform, rowStart, rowEnd int, in, out []uint32) {
 
 	case CrossColorTransform:
 		numWorkers := runtime.GOMAXPROCS(0)
+		numWorkers = verifhook.Workers("ll.dec.crosscolor", numWorkers)
 		if numWorkers > 1 && numPixels >= minPixelsForParallel {
 			colorSpaceInverseTransformParallel(t, rowStart, rowEnd, in, out, numWorkers)
 		} else {
